@@ -1,7 +1,7 @@
 CLAIM = "wip"
 ASSUMPTIONS = []
 LIST_UNITS = ["src/list.c", "src/safe.c"]
-OM = {"out_vformat.4": 90, "out_vformat.0": 3, "out_vformat.1": 4, "out_vformat.2": 4, "out_vformat.3": 3, "out_strlen.0": 41, "out_pad.0": 12, "out_str.0": 42, "out_str.1": 41, "out_hex.0": 9, "out_hex.1": 9, "out_hex.2": 9}
+OM = {"out_vformat.4": 90, "out_vformat.0": 3, "out_vformat.1": 4, "out_vformat.2": 4, "out_vformat.3": 3, "out_strlen.0": 41, "out_pad.0": 12, "out_str.0": 42, "out_str.1": 41, "out_hex.0": 9, "out_hex.1": 9, "out_hex.2": 9, "lha_arch_vasprintf.0": 65}
 LISTL = {"sym_header_fill.0": 4, "sym_header_fill.1": 6, "unix_permissions_print.0": 10, "os9_permissions_print.0": 8, "safe_output.0": 12,
          "last_column.0": 11, "print_list_headings.0": 22, "print_list_headings.1": 11, "print_list_separators.0": 22, "print_list_separators.1": 11,
          "print_columns.0": 11, "print_footers.0": 11, "print_footers.1": 11, "print_footers.2": 12, "print_footers.3": 11, "list_file_contents.0": 4,
@@ -10,6 +10,27 @@ def U(**kw):
     d = dict(OM); d.update(LISTL); d.update(kw); return d
 COLS = [(1, "perm"), (2, "owner"), (3, "sizes"), (4, "ratio"), (5, "method"), (6, "stamp"), (7, "fullstamp"), (8, "name"), (9, "wname"), (10, "level"), (11, "totals"), (12, "footstamp")]
 HARNESSES = [
-    dict(name="col."+n, src="C19/cols.c", defines=["WHICH=%d" % w, "SL=3", "OUT_TOKENS=48", "OUT_MAXSTR=16"], unwindset=U(**{"c19_compare.0": 49}), units=LIST_UNITS, timeout=180, mem_gb=3)
+    dict(name="col."+n, src="C19/cols.c", defines=["WHICH=%d" % w, "SL=%d" % (2 if n in ("name", "wname") else 3), "OUT_TOKENS=%d" % (16 if n in ("name", "wname") else 32), "OUT_MAXSTR=%d" % (12 if n == "perm" else 8), "VAS_MAX=16"], unwindset=U(**{"c19_compare.0": 33, "harness.0": 9, "lha_arch_vasprintf.0": 17}), units=LIST_UNITS, timeout=180, mem_gb=3,
+         backend=("cvc5" if n in ("ratio", "totals") else "default"))
     for w, n in COLS
+]
+
+
+CMDS = ["l", "lv", "v", "vv"]
+RU = {"c19_compare.0": 97, "lha_arch_vasprintf.0": 17}
+HARNESSES += [
+    dict(name="head."+n, src="C19/rows.c", defines=["WHICH=2", "CMD=%d" % c, "SL=2", "OUT_TOKENS=96", "OUT_MAXSTR=12", "VAS_MAX=16"], unwindset=U(**RU), units=LIST_UNITS, timeout=180, mem_gb=3)
+    for c, n in enumerate(CMDS)
+] + [
+    dict(name="foot."+n, src="C19/rows.c", defines=["WHICH=3", "CMD=%d" % c, "SL=2", "OUT_TOKENS=96", "OUT_MAXSTR=12", "VAS_MAX=16"], unwindset=U(**RU), units=LIST_UNITS, timeout=180, mem_gb=3, backend="cvc5")
+    for c, n in enumerate(CMDS)
+]
+STUBBED = ["permission_column_print", "unix_uid_gid_column_print", "packed_column_print", "size_column_print", "ratio_column_print", "method_crc_column_print",
+           "timestamp_column_print", "full_timestamp_column_print", "name_column_print", "whole_line_name_column_print", "header_level_column_print",
+           "permission_column_footer", "unix_uid_gid_column_footer", "packed_column_footer", "size_column_footer", "ratio_column_footer",
+           "timestamp_column_footer", "full_timestamp_column_footer"]
+HARNESSES += [
+    dict(name="comp."+n, src="C19/comp.c", defines=["CMD=%d" % c, "NHDR=3", "SL=1", "OUT_TOKENS=400", "OUT_MAXSTR=12", "VAS_MAX=16"], rename_defs={"src/list.c": STUBBED},
+         unwindset=U(**{"c19_compare.0": 401, "harness.0": 4, "harness.1": 5, "harness.2": 4, "ref_listing.0": 4, "list_file_contents.0": 5}), units=LIST_UNITS, timeout=300, mem_gb=4, object_bits=14, flags=["--max-field-sensitivity-array-size", "512"])
+    for c, n in enumerate(CMDS)
 ]
